@@ -1,5 +1,6 @@
 import TrackpyV.Model.Proto
 import TrackpyV.Model.Drift
+import TrackpyV.Model.DriftSmooth
 
 /-! Driver ops for C18 (drift).
 
@@ -13,6 +14,8 @@ curve = `f:v,f:v,...`
 `C18SUB d | rows | x | curve ; curve ; ..`   subtractDrift with one explicit curve per column
    -> `rows=tag:x0:x1,tag:x0:x1,.. r0=curve r1=curve ..`   (output order; r_k = drift re-measured
       on the output)
+`C18SMOOTH w d | rows`             compute_drift(t, smoothing = w)
+   -> `nodup=<0|1> rect=<0|1> frames=f,f,.. s0=curve s1=curve ..`   (s_k = driftSmoothedCol w k)
 -/
 namespace TrackpyV.Driver.C18
 open TrackpyV.Proto TrackpyV.Drift
@@ -80,7 +83,20 @@ def handleSub (rest : String) : String :=
     | _, _ => "bad-op"
   | _ => "bad-op"
 
+def handleSmooth (rest : String) : String :=
+  match splitKeep rest "|" with
+  | [wd, rows] =>
+    match words wd with
+    | [w, d] =>
+      match parseNat? w, parseNat? d, parseRows? rows with
+      | some w, some d, some t =>
+        s!"nodup={b2s (keysNodupB t)} rect={b2s (rectB d t)} frames={showIntList (mframes t)} " ++
+        showCurves "s" (ownDriftSmoothed w d t)
+      | _, _, _ => "bad-op"
+    | _ => "bad-op"
+  | _ => "bad-op"
+
 def handlers : List (String × (String → String)) :=
-  [("C18DRIFT", handleDrift), ("C18SUB", handleSub)]
+  [("C18DRIFT", handleDrift), ("C18SUB", handleSub), ("C18SMOOTH", handleSmooth)]
 
 end TrackpyV.Driver.C18
